@@ -108,6 +108,21 @@ CHECKS = {
             'all prebuilt instances equal to the lower-case rendering (when the prebuild host of C05/C06 is present).',
             'Trusted: oalast printer, oaleval reference.',
             'DESIGN.md section 5, C08'),
+    'C15': ('enumerator',
+            'bounded exhaustive enumeration of call systems (assignments of OAL bodies to callable model elements) x entry calls x row orders, real component vs reference evaluator',
+            'A BridgePoint model with functions f, g, h, class A (instance operation, class operation, derived attribute), '
+            'external entity EE with a bridge, enumeration Color chained by R56 and four constants is synthesised through the '
+            'ooaofooa API for every assignment of bodies from menus of 9/4/3/4/3/2/3 bodies (quick: default + every single '
+            'deviation + product of a sub-menu; thorough: full product of 7776 systems): every return form (value, bare, none, '
+            'inside loop and nested if), direct and mutual recursion, calls in expressions / where clauses / loop conditions / '
+            'parameters of other calls, permuted by-name parameters, callees assigning the callers variable names, self reads '
+            'and writes, derived attributes calling functions. 38 entry calls per system from python (find_symbol, class and '
+            'instance members, derived reads before/after a write, enumerators, constants) and from OAL callers are compared '
+            'with the reference evaluator (value and population). Row order: the model is serialised, the rows of S_ENUM, '
+            'S_SPARM, O_TPARM, CNST_SYC, CNST_LSC, S_SYNC, O_TFR, O_ATTR permuted (all permutations up to 4 rows, else '
+            'reversal/rotations; whole file reversed), reloaded through ModelLoader.input, and must behave identically.',
+            'Trusted: mc/refs/oaleval.py. Bodies use the constructs C04 checks separately.',
+            'DESIGN.md section 5, C15'),
 }
 
 NOT_YET = 'check not built yet in this revision (planned, see DESIGN.md section 5); not claimed until it exists'
